@@ -34,6 +34,9 @@ CLAIMS = {
     "C01": ("other",
             "P: block layout of apply_all_symops / ordered_symmetry_operations on a symbolic instance; the wrap statement of unit_cell_atoms proved to map every real coordinate into [0,1) by an integer shift; unit_cell_atoms executed on a symbolic 2-site x 2-operation instance under every coincidence pattern that is an equivalence relation (exact model of the sparse distance matrix): one mask on all arrays, least row of each class survives, merged occupancy = class sum, Cartesian = fractional.D. G: int32 range of generator codes. B: the real function against an exact rational orbit (general positions in and out of the cell, exact special positions with fractional occupancy) for 40 seeded settings (all 530 in the thorough tier). 'Every distinct image exactly once for every setting' combines C02 (group), the merge instance and the bounded runs, hence 'other'.",
             "scipy sparse_distance_matrix exactness and row-major dok.items() order assumed (monitored by the bounded runs); floats as reals; instance-level (2x2) merge proof"),
+    "C05": ("other",
+            "P: VCs from density.py and from _density.pyx (mechanically de-cythonised on every run; memoryviews of symbolic extent, every index proved in range; atom loop by the classical invariant rule, so rho = sum of per-atom interpolants for any number of atoms): interpolation regimes equal the oracle, squared-distance/bohr conversion, row Z-1 per atom, weight formula and range, complementary weights sum to one, constructor rejects Z outside 1..103. G: all 103x4096 table entries (positive, monotone ratio, uniform knots). L: positivity, additivity/permutation/rigid-motion lemmas. F: prange iterations independent. B: the compiled kernel (cannot be rebuilt from the .pyx here) against a float64 oracle on seeded systems. One open known finding (float->int cast overflow beyond ~7664 A) is listed in known_findings.json.",
+            "floats as reals; Cython/gcc implement the de-cythonised semantics and the .so corresponds to the .pyx (only run-time conformance); induction over atoms cited"),
 }
 
 NA_PENDING = "check not built yet in this session (see DESIGN.md section 8 build order)"
